@@ -586,6 +586,16 @@ func (w *Writer) WriteCompressed(refs []Reference, objects ...Object) error {
 		return nil
 	}
 
+	// Readers (this library's included) refuse object streams with more than
+	// maxObjStmMembers members: split large batches.
+	for len(objects) > maxObjStmMembers {
+		err := w.WriteCompressed(refs[:maxObjStmMembers], objects[:maxObjStmMembers]...)
+		if err != nil {
+			return err
+		}
+		refs, objects = refs[maxObjStmMembers:], objects[maxObjStmMembers:]
+	}
+
 	sRef := w.Alloc()
 	for i, ref := range refs {
 		err := w.setXRef(ref, &xRefEntry{InStream: sRef, Pos: int64(i)})
@@ -654,6 +664,10 @@ func (w *Writer) WriteCompressed(refs []Reference, objects ...Object) error {
 
 	return nil
 }
+
+// maxObjStmMembers is the largest number of objects an object stream may
+// hold (see getObjStm).
+const maxObjStmMembers = 10000
 
 func checkCompressed(refs []Reference, objects []Object) error {
 	if len(refs) != len(objects) {
